@@ -194,8 +194,16 @@ def build(pl, r):
         # ordinary statements inside the handler: a SUB call, a FUNCTION call, GOSUB/RETURN
         hhead += r.sample(['zhnote', 'zhv% = zid%(4)', 'zgt& = 44002: GOSUB zgs'], r.randint(1, 3))
         pl['handler_calls'] = True
+    arm_in_sub = False
     if pl['mode'] in ('goto-resume', 'goto-resume-next', 'goto-then-goto0', 'goto-end'):
-        lines.append('ON ERROR GOTO zh')
+        if r.random() < 0.25:
+            # the handler is armed by a procedure (an "init" SUB with a local of its own): it still is module-level code and
+            # runs with the main program's variables
+            arm_in_sub = True
+            pl['armed_in_sub'] = True
+            lines.append('zarm 3')
+        else:
+            lines.append('ON ERROR GOTO zh')
         if pl['mode'] == 'goto-resume':
             handler = hhead + [fixes, 'RESUME']
         elif pl['mode'] == 'goto-end':
@@ -206,6 +214,8 @@ def build(pl, r):
         lines.append('ON ERROR RESUME NEXT')
     procs = ['SUB zhnote', 'zhn% = zhn% + 1', 'END SUB', 'SUB zshow (t&)', 'PRINT t&', 'END SUB', 'SUB zshow2 (t&, v)', 'PRINT t&; v', 'END SUB',
              'FUNCTION zid% (x)', 'zid% = x', 'END FUNCTION']
+    if arm_in_sub:
+        procs += ['SUB zarm (zk%)', 'zarmlocal$ = "arm"', 'ON ERROR GOTO zh', 'zarml2& = zk% + 1', 'END SUB']
     gs = ['zgs: PRINT zgt&', 'RETURN']
     if place == 'main':
         lines += body + ['END'] + gs + handler
